@@ -62,6 +62,10 @@ def apply_relayout(path: str, spec: dict) -> dict:
                     continue
                 if rng.random() >= per_row:
                     continue
+                if ri.HasField("has_wide_offsets") and not ri.has_wide_offsets and rng.random() < 0.3:
+                    ri.ClearField("has_wide_offsets")  # an explicit False dropped: same meaning
+                    changed = True
+                    continue
                 cnt = len(ri.cell_offsets) // 2
                 offs = list(struct.unpack(f"<{cnt}h", ri.cell_offsets))
                 mode = spec["offset_mode"]
@@ -69,7 +73,11 @@ def apply_relayout(path: str, spec: dict) -> dict:
                     byte_offs = [x * 4 if x >= 0 else x for x in offs]
                     if all(x < 32768 for x in byte_offs):
                         ri.cell_offsets = struct.pack(f"<{cnt}h", *byte_offs)
-                        ri.has_wide_offsets = False
+                        # "not wide" is an explicit False or simply the absence of the optional field
+                        if rng.random() < 0.5:
+                            ri.has_wide_offsets = False
+                        else:
+                            ri.ClearField("has_wide_offsets")
                         n_to_narrow += 1
                         changed = True
                 elif (not ri.has_wide_offsets) and mode in ("wide", "flip"):
